@@ -48,7 +48,7 @@ func TestC22RetransmissionStops(t *testing.T) {
 	col := stats.Get("C22.hist")
 	rapid.Check(t, func(t *rapid.T) {
 		h := newHist(t, HistCfg{MaxSteps: 26, Chains: []string{"btc", "lbtc"}, Restarts: true, Timeouts: true, Drops: true, PayOutcomes: true,
-			Weights: map[string]int{"start": 0, "progress": 10, "deliver": 1, "settle": 0, "restart": 1, "mine": 2, "watcher": 1, "paid": 1, "timeout": 1, "payplan": 1, "resolve": 1, "tick": 6, "peer": 2, "offline": 2}})
+			Weights: map[string]int{"start": 0, "progress": 10, "deliver": 1, "settle": 0, "restart": 1, "mine": 2, "watcher": 1, "paid": 1, "timeout": 1, "payplan": 1, "resolve": 1, "tick": 6, "peer": 3, "offline": 3}})
 		defer h.Close()
 		// reboot both nodes with the real messages.Manager and harness-owned tick channels
 		for _, n := range h.nodes() {
@@ -144,6 +144,25 @@ func TestC22RetransmissionStops(t *testing.T) {
 				}
 			}
 		}
+		// a retransmitted copy is the announcement again: the same bytes as the first one, and (the secrets
+		// monitor of C23) nothing in it that must not leave the node
+		firstCopy := map[string][]byte{}
+		seenMsgs := 0
+		h.monitors = []func(*Hist){monitorC23(col), func(h *Hist) {
+			for _, m := range h.W.Sent[seenMsgs:] {
+				if m.Type != mtOpeningTx {
+					continue
+				}
+				k := m.From + "/" + swapIdOfPayload(m.Payload)
+				if f, ok := firstCopy[k]; !ok {
+					firstCopy[k] = append([]byte{}, m.Payload...)
+				} else if string(f) != string(m.Payload) {
+					h.stop = col.Violation(h.T, "C22/retransmitted-copy-differs", "%s re-sent opening_tx_broadcasted with other content:\n first %s\n later %s\n%s", m.From, f, m.Payload, h.dump())
+					return
+				}
+			}
+			seenMsgs = len(h.W.Sent)
+		}}
 		acts := h.stdActions()
 		delete(acts, "settle")
 		acts["tick"] = func() {
@@ -156,7 +175,7 @@ func TestC22RetransmissionStops(t *testing.T) {
 		// the taker may be unreachable when the maker announces the opening transaction
 		acts["offline"] = func() {
 			n := h.nodes()[rapid.IntRange(0, 1).Draw(t, "offNode")]
-			skip := rapid.IntRange(0, 3).Draw(t, "offSkip")
+			skip := rapid.SampledFrom([]int{0, 0, 1, 1, 1, 2, 3}).Draw(t, "offSkip")
 			cnt := rapid.IntRange(1, 2).Draw(t, "offCount")
 			var q []sim.FaultKind
 			for i := 0; i < skip; i++ {
